@@ -171,7 +171,10 @@ func tokenDoc(prov string, t Tok, email string, r *rand.Rand) string {
 }
 
 func userinfoDoc(u UI, email string, r *rand.Rand) string {
-	return claimsJSON(u.Claims, email, r, pick(r, "", `,"groups":["eng"]`, `,"sub":"00u1","name":"Some One"`))
+	// neighbouring claims a provider sends along: none of them is "the e-mail address the provider returned"
+	return claimsJSON(u.Claims, email, r, pick(r, "", `,"groups":["eng"]`, `,"sub":"00u1","name":"Some One"`,
+		`,"sub":"5e1f","username":"ceo@allowed.test"`, `,"username":"listed@allowed.test","preferred_username":"boss@corp.test"`,
+		`,"username":"plainname","phone_number":"+15550100"`))
 }
 
 // envelope wraps a valid document according to the status / body class.
@@ -233,7 +236,7 @@ func callbackScript(prov string, t Tok, u UI, email string, r *rand.Rand) map[st
 		fmt.Sprintf(`{"access_token":"at-1","refresh_token":{},"expires_in":1.5e400,"id_token":%q}`, it),
 	}
 	sc["token_code"] = envelope(t.St, t.Body, doc, prov, wrongTok, r)
-	if prov == "okta" && u.St != "na" {
+	if prov != "google" && u.St != "na" {
 		udoc := userinfoDoc(UI{Claims: u.Claims}, email, r)
 		e, _ := json.Marshal(email)
 		wrongUI := []string{
@@ -246,8 +249,19 @@ func callbackScript(prov string, t Tok, u UI, email string, r *rand.Rand) map[st
 			"null",
 			"true",
 		}
+		if prov == "cognito" {
+			// Cognito's provider reads only `email`: documents in which THAT has the wrong type
+			wrongUI = []string{
+				fmt.Sprintf(`{"email":[%s],"email_verified":true}`, e),
+				fmt.Sprintf(`{"email":{"value":%s},"email_verified":true}`, e),
+				fmt.Sprintf(`{"email":7,"username":%s}`, e),
+				"[" + udoc + "]",
+				string(e),
+				"true",
+			}
+		}
 		sc["userinfo"] = envelope(u.St, u.Body, udoc, prov, wrongUI, r)
-	} else if prov == "okta" {
+	} else if prov != "google" {
 		// the token answer is the broken one: userinfo would vouch for the email if it were asked
 		sc["userinfo"] = world.IdpAnswer{Body: userinfoDoc(UI{Claims: "verified"}, email, r)}
 	}
